@@ -1,8 +1,9 @@
 """
 C10 — damaged or truncated input is rejected, never returned as a partial molecule; the readers terminate.
 
-Proof:  Molli.Props.C10 (read_terminates, read_complete_or_error, no_cross_molecule_state, truncation_prefix,
-        xyz_read_terminates, xyz_complete_or_error, xyz_tail_counterexample, xyz_truncation_partial) about the
+Proof:  Molli.Props.C10 (read_terminates, read_blocks_terminate, read_complete_or_error, no_cross_molecule_state,
+        truncation_prefix, truncation_last_record, xyz_read_terminates, xyz_complete_or_error, xyz_truncation_lines,
+        xyz_tail_counterexample, xyz_truncation_partial, cut_form) about the
         reader models of C07/C08, total on ARBITRARY line lists.
 Tie:    differential on damaged texts: every line-boundary truncation and every byte offset of the last record
         (exhaustive per file) of generated and bundled mol2 / xyz texts, plus seeded line deletions, duplications
